@@ -3,6 +3,7 @@ CONSTANTS
   Ns = {1, 2, 3, 4, 5, 6, 7, 8, 9, 10, 11, 12}
   BigNs = {170, 171, 200, 400}
   BigSamples = {3, 40, 160}
+  HugeNs = {1200}
 INVARIANTS
   SelfCheck
   Emit
